@@ -138,6 +138,36 @@ SCENARIO("log__") {
   out("X", X.coeffs()); out("out", t.coeffs());
 }
 
+// ---- log applied to exp(t) (polar parametrisation of the input, L-POLAR) and to the
+//      antipodal coefficient vector of the same transformation (C03, C05 for the large groups)
+template <typename GG> struct RotSlots { static void negate(GG&) {} enum { has = 0 }; };
+#define VS_ROT(GT, FIRST) \
+  template <> struct RotSlots<GT> { \
+    static void negate(GT& g) { for (int i = FIRST; i < FIRST + 4; ++i) g.coeffs()(i) = -g.coeffs()(i); } \
+    enum { has = 1 }; };
+VS_ROT(manif::SO3<Sym>, 0)
+VS_ROT(manif::SE3<Sym>, 3)
+VS_ROT(manif::SE_2_3<Sym>, 3)
+VS_ROT(manif::SGal3<Sym>, 3)
+SCENARIO("logexp") {
+  T t = sym_tangent<T>("t");
+  G X = t.exp();
+  Jac J = poison_mat<DoF, DoF>("J");
+  T u = X.log(J);
+  out("t", t.coeffs()); out("X", X.coeffs()); out("out", u.coeffs()); out("J", J);
+  out("rjac", t.rjac()); out("rjacinv", t.rjacinv());
+}
+SCENARIO("logexp_neg") {
+  T t = sym_tangent<T>("t");
+  G X = t.exp();
+  RotSlots<G>::negate(X);
+  Jac J = poison_mat<DoF, DoF>("J");
+  T u = X.log(J);
+  out("t", t.coeffs()); out("X", X.coeffs()); out("out", u.coeffs()); out("J", J);
+  out("rjac", t.rjac()); out("rjacinv", t.rjacinv());
+  out_int("has_double_cover", RotSlots<G>::has);
+}
+
 // ---- tangent-side Jacobian blocks and algebra (C06, C07)
 SCENARIO("rjac")    { T t = sym_tangent<T>("t"); out("t", t.coeffs()); out("out", t.rjac()); }
 SCENARIO("ljac")    { T t = sym_tangent<T>("t"); out("t", t.coeffs()); out("out", t.ljac()); }
